@@ -189,6 +189,7 @@ func TestVerif_C39(t *testing.T) {
 	runPhase("seq", false, r.N(3, 12))
 	runPhase("conc", true, r.N(6, 40))
 	c39ForwardFault(t, r)
+	c39OwnSendFault(t, r)
 	r.Require("answered_by_target", 20)
 	r.Require("fwd_fault_error_responses_seen", 1)
 }
@@ -351,4 +352,145 @@ func indexOf(xs []int, v int) int {
 		}
 	}
 	return 0
+}
+
+
+// c39OwnSendFault: a transit that relays other agents' requests also ORIGINATES a request, and
+// the write of that own request fails (its link to the target is closed while the frame is being
+// written; the write is held for a moment first, as a congested link would). While it is held the
+// transit relays another agent's request; after it failed it relays a third one. Request ids the
+// transit handed out for requests still in flight must stay theirs: every relayed request must be
+// answered, by its own target.
+func c39OwnSendFault(t *testing.T, r *verifkit.R) {
+	topos := c39Topos()
+	r.Cases("own-send-fault", r.N(4, 40), func(ci int, rng *verifkit.Rand) {
+		spec := topos[0] // star: I1 I2 I3 around T(3), targets E1(4) E2(5)
+		tap := mkInstallTap()
+		defer tap.close()
+		m, err := mkBuild(t, spec)
+		if err != nil {
+			r.Inconclusive("mesh did not come up: " + err.Error())
+			return
+		}
+		defer m.stop()
+		if err := c39WaitAgents(m, 60*time.Second); err != nil {
+			r.Inconclusive(err.Error())
+			return
+		}
+		tr := 3
+		x := 4 + rng.Intn(2)
+		y := 9 - x
+		a1, a2 := rng.Intn(3), 0
+		a2 = (a1 + 1 + rng.Intn(2)) % 3
+		T, X, Y := m.nodes[tr].a, m.nodes[x].a, m.nodes[y].a
+		var fmu sync.Mutex
+		armed, fired := false, 0
+		holding := make(chan struct{}, 1)
+		hold := time.Duration(120+rng.Intn(120)) * time.Millisecond
+		tap.mu.Lock()
+		tap.onPayload = func(ev *mkFrameEv, payload []byte) {
+			if !ev.Write {
+				return
+			}
+			if ev.Type == protocol.FrameControlResponse && ev.Local == Y.ID() {
+				time.Sleep(350 * time.Millisecond) // answers of the relayed requests stay outstanding
+				return
+			}
+			if ev.Type == protocol.FrameControlRequest && ev.Local == T.ID() && ev.Remote == X.ID() {
+				fmu.Lock()
+				fire := armed && fired == 0
+				if fire {
+					fired++
+				}
+				fmu.Unlock()
+				if fire {
+					mkKillLinkFromTap(T, X.ID())
+					holding <- struct{}{}
+					time.Sleep(hold)
+				}
+			}
+		}
+		tap.mu.Unlock()
+		status := func(from, to int, timeout time.Duration) c39Call {
+			c := c39Call{Requester: m.nodes[from].name, Target: m.nodes[to].name}
+			ctx, cancel := context.WithTimeout(context.Background(), timeout)
+			defer cancel()
+			resp, err := m.nodes[from].a.SendControlRequest(ctx, m.nodes[to].a.ID(), protocol.ControlTypeStatus)
+			if err != nil {
+				c.Err = err.Error()
+				c.IdleMs = time.Since(time.Unix(0, tap.lastData.Load())).Milliseconds()
+				return c
+			}
+			var st struct {
+				AgentID string `json:"agent_id"`
+			}
+			if !resp.Success || json.Unmarshal(resp.Data, &st) != nil {
+				c.Err = fmt.Sprintf("unsuccessful response: %q", string(resp.Data))
+				c.Round = -1
+				return c
+			}
+			if id, err := identity.ParseAgentID(st.AgentID); err == nil {
+				c.Got = m.name(id)
+			} else {
+				c.Got = st.AgentID
+			}
+			return c
+		}
+		// a few relayed requests first, so the transit's numbering is under way
+		var warm []c39Call
+		for i := 0; i < rng.Range(1, 4); i++ {
+			warm = append(warm, status(a1, y, 8*time.Second))
+		}
+		fmu.Lock()
+		armed = true
+		fmu.Unlock()
+		var wg sync.WaitGroup
+		var own, c1, c2 c39Call
+		wg.Add(1)
+		go func() { defer wg.Done(); own = status(tr, x, 5*time.Second) }()
+		select {
+		case <-holding:
+		case <-time.After(5 * time.Second):
+			wg.Wait()
+			r.Inconclusive("own-send-fault: the transit's own request never reached its write")
+			return
+		}
+		wg.Add(1)
+		go func() { defer wg.Done(); c1 = status(a1, y, 10*time.Second) }() // relayed while the own write is held
+		time.Sleep(hold + 60*time.Millisecond)                               // the own write has failed by now
+		wg.Add(1)
+		go func() { defer wg.Done(); c2 = status(a2, y, 10*time.Second) }() // relayed after the failure
+		wg.Wait()
+		all := append(append([]c39Call{}, warm...), own, c1, c2)
+		r.Add("control_requests", len(all))
+		r.Add("own_send_fault_scenarios", 1)
+		if own.Err != "" {
+			r.Add("own_send_fault_own_request_failed_as_injected", 1)
+		}
+		for _, c := range append(append([]c39Call{}, warm...), c1, c2) {
+			switch {
+			case c.Err == "" && c.Got == c.Target:
+				r.Add("answered_by_target", 1)
+			case c.Err == "":
+				r.Violation("own-send-fault:answer-of-another-agent-delivered", "own-send-fault", ci,
+					fmt.Sprintf("%s asked %s and was handed the answer of %s", c.Requester, c.Target, c.Got), all)
+			case c.Round == -1:
+				r.Violation("own-send-fault:error-report-of-another-request-delivered", "own-send-fault", ci,
+					fmt.Sprintf("%s asked %s (path not touched by the fault) and was handed an error response: %s", c.Requester, c.Target, c.Err), all)
+			case c.IdleMs < 2000:
+				r.Inconclusive(fmt.Sprintf("own-send-fault: request %s->%s got no answer while control frames were still moving: %s", c.Requester, c.Target, c.Err))
+			default:
+				r.Violation("own-send-fault:answer-never-reached-asker", "own-send-fault", ci,
+					fmt.Sprintf("%s asked %s through transit %s (path not touched by the fault) and never received an answer (%s); meanwhile the transit's own request to %s failed at the write (own call: got=%q err=%q) and it relayed another request afterwards", c.Requester, c.Target, m.nodes[tr].name, c.Err, m.nodes[x].name, own.Got, own.Err), all)
+			}
+		}
+		if own.Err == "" && own.Got != own.Target {
+			r.Violation("own-send-fault:answer-of-another-agent-delivered", "own-send-fault", ci,
+				fmt.Sprintf("transit %s asked %s and was handed the answer of %s", own.Requester, own.Target, own.Got), all)
+		}
+		r.Eval(fmt.Sprintf("ownfault/%d/%d/%d/%d/%v", x, a1, a2, len(warm), hold), fired > 0)
+		if r.NeedSample() {
+			r.Sample(map[string]any{"phase": "own-send-fault", "transit": m.nodes[tr].name, "failing_target": m.nodes[x].name, "relayed_during_hold": c1, "relayed_after_failure": c2, "own": own})
+		}
+	})
 }
